@@ -6,10 +6,12 @@ CONSTANTS IdChars,      \* characters node ids are built from
 
 VARIABLE c
 Ids == UNION {[1..n -> IdChars] : n \in 1..MaxIdLen}
+Ids1 == [1..1 -> IdChars]
 DocumentedSubjects ==
     {<<>>, <<"a","c","k">>, <<"p","h","r">>}
     \cup {<<"p", ".">> \o i : i \in Ids}
-    \cup {<<"p", ".">> \o i \o <<".">> \o j : i \in Ids, j \in Ids}
+    \cup {<<"p", ".">> \o i \o <<".">> \o j : i \in Ids1, j \in Ids}
+    \cup {<<"p", ".">> \o i \o <<".">> \o j : i \in Ids, j \in Ids1}
 
 \* one state per point pattern / per subject
 Init == \/ \E p \in PointPat : c = [kind |-> "point", p |-> p]
